@@ -436,6 +436,7 @@ func c20SharedConfig(c *Ctx) {
 			rot.Wait()
 			rep.Count("shared_config_connections/"+mode, int64(4*N))
 			rep.Count("shared_config_resumed/"+mode, int64(resumed))
+			rep.Require("shared_config_resumed/"+mode, 10) // the scenario is about resumption and ticket renewal under concurrency
 			rep.Eval(fmt.Sprintf("shared-config/%s/connections=%d", mode, N))
 		}
 	}
